@@ -438,6 +438,7 @@ func init() {
 		in.drain() // let every other goroutine run until it blocks or finishes
 		return nil
 	})
+	reg(ndPkg+".RegisterReset", func(in *Interp, fr *frame, a []Value) Value { return nil })
 	reg(ndPkg+".AllowLeak", func(in *Interp, fr *frame, a []Value) Value { in.extra["allowLeak"] = true; return nil })
 }
 
